@@ -62,6 +62,13 @@ FIRST_CONTACT_R7C = {
     "C15-r7C": "C01 (wrong reason; now C15 for the slip)", "C16-r7C": "none (undecided)", "C17-r7C": "C07 C17 (C07 for a wrong reason; now C17)", "C18-r7C": "C18", "C19-r7C": "C19",
     "C20-r7C": "C08 C20 (both for wrong reasons; now C20.4 for the slip)",
 }
+FIRST_CONTACT_R8C = {
+    "C01-r8C": "C01 (wrong reason - capped buffer, also in the clean twin; now C01 C15 for the slip)", "C02-r8C": "C09 (for the slip: a class-level cache shared by instances); C02 C10 undecided",
+    "C03-r8C": "none - SILENT (now C02 C03 undecided)", "C04-r8C": "C16 (wrong reason - reader selection, also in the clean twin; now C04 C16 for the slip)", "C10-r8C": "none (C02 C10 undecided)",
+    "C11-r8C": "C11", "C12-r8C": "C12 (wrong reason - int() inside a try was taken for an escaping ValueError; now C12 for the slip: negative powers of two)",
+    "C13-r8C": "none - SILENT for C13 (C14 undecided; now C13 undecided as well)", "C16-r8C": "C05 (wrong reason - a digest attribute taken for a piece length; now C04 C16 for the slip)",
+    "C19-r8C": "none - SILENT (now C19 for the slip)",
+}
 FIRST_CONTACT_R6C = {
     "C01-r6C": "C01", "C02-r6C": "C02 C03 C06 (all three for a wrong reason; now undecided)", "C03-r6C": "none (undecided)", "C04-r6C": "C04 C05 C16", "C05-r6C": "none (undecided)",
     "C06-r6C": "C06", "C07-r6C": "C06 C07 (wrong reason; now undecided)", "C08-r6C": "C06 only - C08 was silent (generators did not carry iteration order)", "C09-r6C": "C09",
@@ -96,7 +103,7 @@ def table_r3(root, tag="-r3"):
             first += 1
         extra = " %s |" % (" ".join(fc) or "-") if fc is not None else ""
         rows.append("| %s | %s | %d | %s |%s %s |" % (d, m["property"], len(m.get("clean_for", [])), " ".join(und) or "-", extra, (m.get("what") or "").replace("|", "/")[:110]))
-    if tag in ("-r5", "-r6", "-r7"):
+    if tag in ("-r5", "-r6", "-r7", "-r8"):
         print("| refactoring | written for | checks silent and decided | checks answering undecided | false alarms at first contact | what it is |")
         print("|---|---|---|---|---|---|")
     else:
@@ -104,7 +111,7 @@ def table_r3(root, tag="-r3"):
         print("|---|---|---|---|---|")
     print("\n".join(rows))
     print()
-    if tag in ("-r5", "-r6", "-r7"):
+    if tag in ("-r5", "-r6", "-r7", "-r8"):
         print("%d of these refactorings were reported as a violation by at least one check when first run; each report was a false alarm and was removed by generalising the rule." % first)
         print()
     print("%d refactorings: %d decided clean by all 20 checks, %d with at least one undecided answer (the target property's own check undecided for %d); none is reported as a violation." % (full + part, full, part, tgt_und))
@@ -113,9 +120,9 @@ def table_r3(root, tag="-r3"):
 def main():
     rnd = sys.argv[1] if len(sys.argv) > 1 else "r2"
     root = os.path.join(HERE, "seeded")
-    if rnd in ("r3", "r5", "r6", "r7"):
+    if rnd in ("r3", "r5", "r6", "r7", "r8"):
         return table_r3(root, "-" + rnd)
-    first = FIRST_CONTACT_R4 if rnd == "r4" else (FIRST_CONTACT_R6C if rnd == "r6C" else (FIRST_CONTACT_R7C if rnd == "r7C" else FIRST_CONTACT_R2))
+    first = FIRST_CONTACT_R4 if rnd == "r4" else (FIRST_CONTACT_R6C if rnd == "r6C" else (FIRST_CONTACT_R7C if rnd == "r7C" else (FIRST_CONTACT_R8C if rnd == "r8C" else FIRST_CONTACT_R2)))
     rows = []
     for d in sorted(os.listdir(root)):
         if ("-" + rnd) not in d:
